@@ -55,6 +55,55 @@ Definition simple_ruleb (rl : rule) : bool :=
       else mkind_eqb (r_gk rl) KNone && ueqb (r_gv rl) [])
   && plain_rule rl && (match r_sjoin rl with [] => true | _ => false end) && (match r_ojoin rl with [] => true | _ => false end).
 
+(* ---- referencing object maps (joins): the wider fragment of Proofs/DocJoinP.v *)
+Definition join_objmap (o : objmap) : bool :=
+  mkind_eqb (m_kind (o_tm o)) KParent
+  && (match m_tt (o_tm o), o_lang o, o_dt o with None, None, None => true | _, _, _ => false end)
+  && (match o_joins o with [] => false | _ => true end)
+  && forallb (fun cp => ueqb (undelimit_ident (fst cp)) (fst cp) && ueqb (undelimit_ident (snd cp)) (snd cp)) (o_joins o).
+(* a predicate-object map holds ordinary object maps only, or referencing object maps only *)
+Definition jplain_pom (p : pom) : bool :=
+  forallb plain_map (p_preds p) && (forallb plain_objmap (p_objs p) || forallb join_objmap (p_objs p)) && forallb plain_graph (p_graphs p).
+Definition jplain_tm (t : tmapdef) : bool :=
+  plain_map (t_subj t) && forallb plain_graph (t_sgraphs t) && forallb jplain_pom (t_poms t)
+  && match t_sjoins t with [] => true | _ => false end.
+(* a referencing object map names a triples map of the document; it is not one of those the parser rewrites into a plain term map
+   (same source and every condition comparing a column with itself) *)
+Definition parent_ok (d : document) (t : tmapdef) (o : objmap) : bool :=
+  if join_objmap o then
+    match find (fun p => ueqb (t_id p) (m_value (o_tm o))) d with
+    | Some p => negb (ueqb (t_src t) (t_src p) && forallb (fun cp => ueqb (fst cp) (snd cp)) (o_joins o))
+    | None => false
+    end
+  else true.
+Definition parents_ok (d : document) : bool := forallb (fun t => forallb (fun p => forallb (parent_ok d t) (p_objs p)) (t_poms t)) d.
+Fixpoint nodupb (l : list ustr) : bool := match l with [] => true | x :: r => negb (mem x r) && nodupb r end.
+Fixpoint is_prefix (p s : ustr) : bool :=
+  match p, s with [], _ => true | a :: p', b :: s' => (a =? b) && is_prefix p' s' | _ :: _, [] => false end.
+Definition child_names_of (rl : rule) : list ustr :=
+  names (segs_of (r_sk rl) (r_sv rl)) ++ names (segs_of (r_pk rl) (r_pv rl)) ++ names (segs_of (r_ldk rl) (r_ldv rl)) ++ names (segs_of (r_gk rl) (r_gv rl)).
+(* a rule whose object is a referencing object map with join conditions, and its parent rule *)
+Definition join_ruleb (rules : list rule) (rl : rule) : bool :=
+  mkind_eqb (r_ok rl) KParent
+  && pos_okb (r_sk rl) (r_sv rl) (r_stt rl) && pos_okb (r_pk rl) (r_pv rl) TIri
+  && (match r_ld rl with LDNone => mkind_eqb (r_ldk rl) KNone && ueqb (r_ldv rl) [] | _ => false end)
+  && (if is_plain (r_gk rl) then pos_okb (r_gk rl) (r_gv rl) TIri && (negb (ueqb (r_gv rl) Tables.c_rml_default_graph) || mkind_eqb (r_gk rl) KConst)
+      else mkind_eqb (r_gk rl) KNone && ueqb (r_gv rl) [])
+  && (match r_sjoin rl with [] => true | _ => false end) && (match r_ojoin rl with [] => false | _ => true end)
+  && forallb (fun n => negb (is_prefix parent_prefix n)) (child_names_of rl ++ joins_child (r_ojoin rl))
+  && match find_rule rules (r_ov rl) with
+     | Some q => is_plain (r_sk q) && term_wf (r_sk q) (r_sv q) && (match r_ott rl with TLit => lits_neutral (segs_of (r_sk q) (r_sv q)) | _ => true end)
+                 && (match r_sjoin q with [] => true | _ => false end)
+     | None => false
+     end.
+(* the end-to-end theorem with joins (Proofs/DocJoinP.v) applies to this document *)
+Definition theorem_applies_joins (d : document) : bool :=
+  forallb jplain_tm d && nodupb (map t_id d) && parents_ok d &&
+  match normalise d with
+  | Ok rules => nodupb (map r_id rules) && forallb (fun rl => simple_ruleb rl || join_ruleb rules rl) rules
+  | Err _ => false
+  end.
+
 (* the end-to-end theorem of C01 applies to this document and configuration *)
 Definition theorem_applies (nquads : bool) (d : document) : bool :=
   forallb plain_tm d && match normalise d with Ok rules => forallb simple_ruleb rules | Err _ => false end.
